@@ -1359,6 +1359,91 @@ func genExits(repo, out string) {
 			return true
 		})
 	}
+	// rpc.go establishRegion: what is passed as the read timeout (6th argument) to every
+	// newRegionClientFn call; and the options the admin client / regular client store
+	var rtArgs []string
+	if fd := findMethod(f, "client", "establishRegion"); fd != nil {
+		ast.Inspect(fd.Body, func(n ast.Node) bool {
+			if c, ok := n.(*ast.CallExpr); ok && exprStr(c.Fun) == "c.newRegionClientFn" {
+				if len(c.Args) >= 6 {
+					rtArgs = append(rtArgs, exprStr(c.Args[5]))
+				} else {
+					rtArgs = append(rtArgs, "?")
+				}
+			}
+			return true
+		})
+	}
+	g.def("regionClientReadTimeoutArgs", "List String", leanList(rtArgs))
+	// region/new.go NewClient: the parameter in 6th position and the field it is stored in
+	rtParam, rtField := "", ""
+	frn := parse(filepath.Join(repo, "region", "new.go"))
+	if fd := findFunc(frn, "NewClient"); fd != nil {
+		var names []string
+		for _, fl := range fd.Type.Params.List {
+			for _, nm := range fl.Names {
+				names = append(names, nm.Name)
+			}
+		}
+		if len(names) >= 6 {
+			rtParam = names[5]
+		}
+		ast.Inspect(fd.Body, func(n ast.Node) bool {
+			if kv, ok := n.(*ast.KeyValueExpr); ok && exprStr(kv.Value) == rtParam && rtParam != "" {
+				rtField = exprStr(kv.Key)
+			}
+			return true
+		})
+	}
+	g.def("newClientReadTimeoutParam", "String × String", fmt.Sprintf("(%s, %s)", leanStr(rtParam), leanStr(rtField)))
+	// region/client.go: where the read deadline is armed, and with what
+	var armExprs []string
+	ast.Inspect(frc, func(n ast.Node) bool {
+		if c, ok := n.(*ast.CallExpr); ok && strings.HasSuffix(exprStr(c.Fun), ".SetReadDeadline") && len(c.Args) == 1 {
+			armExprs = append(armExprs, exprStr(c.Args[0]))
+		}
+		return true
+	})
+	g.def("readDeadlineArgs", "List String", leanList(armExprs))
+	// rpc.go findClients: the context the region of a call is located under, and what ends it
+	var locCtx, afterFuncs, withCancels []string
+	if fd := findMethod(f, "client", "findClients"); fd != nil {
+		ast.Inspect(fd.Body, func(n ast.Node) bool {
+			if c, ok := n.(*ast.CallExpr); ok {
+				switch exprStr(c.Fun) {
+				case "c.getRegionAndClientForRPC":
+					if len(c.Args) >= 1 {
+						locCtx = append(locCtx, exprStr(c.Args[0]))
+					}
+				case "context.AfterFunc":
+					var as []string
+					for _, a := range c.Args {
+						as = append(as, exprStr(a))
+					}
+					afterFuncs = append(afterFuncs, strings.Join(as, ", "))
+				case "context.WithCancel":
+					if len(c.Args) == 1 {
+						withCancels = append(withCancels, exprStr(c.Args[0]))
+					}
+				}
+			}
+			return true
+		})
+		// the assignment that binds the location context
+		ast.Inspect(fd.Body, func(n ast.Node) bool {
+			if as, ok := n.(*ast.AssignStmt); ok && len(as.Lhs) == 2 && len(as.Rhs) == 1 {
+				if c, ok := as.Rhs[0].(*ast.CallExpr); ok && exprStr(c.Fun) == "context.WithCancel" {
+					withCancels[0] = exprStr(as.Lhs[0]) + ", " + exprStr(as.Lhs[1]) + " = WithCancel(" + exprStr(c.Args[0]) + ")"
+				}
+			}
+			return true
+		})
+	} else {
+		g.fail("findClients missing")
+	}
+	g.def("findClientsLocateCtx", "List String", leanList(locCtx))
+	g.def("findClientsAfterFunc", "List String", leanList(afterFuncs))
+	g.def("findClientsWithCancel", "List String", leanList(withCancels))
 	g.def("metaRowKeyCheck", "String", leanStr(rowCheck))
 	g.def("publishSites", "List (String × List String)", "[\n  "+strings.Join(sites, ",\n  ")+"]")
 	g.finish(out)
